@@ -197,43 +197,67 @@ def check_batches(ctx, fb):
               "dispatch targets %s" % sorted(allt), loc(it))
 
 
+def removal_list(fb, t):
+    """the list of positions a removal helper works on: its `indices` parameter, or that parameter restricted to the positions below
+    the high-water mark (`indices.iter().copied().filter(|&i| i < self.tree.leaves_set())`); returns a description or None"""
+    if t == P(2):
+        return "indices"
+    if isinstance(t, tuple) and t and t[0] == "call" and t[1].endswith("Iterator::filter") and len(t[2]) == 2 and t[2][0] == P(2):
+        from .. import panics
+        old = panics.FB
+        panics.FB = fb
+        try:
+            b = panics.closure_bound(t[2][1], ("Lt",))
+        finally:
+            panics.FB = old
+        if b is not None and isinstance(b[1], tuple) and b[1][0] == "call" and b[1][1].endswith("::leaves_set") and b[1][2] in ((F(P(1), "tree"),), (P(1),)):
+            return "indices below leaves_set()"
+    return None
+
+
 def removal_span_rule(fb, it):
-    """PmTree::remove_indices: values[i - first] = default if i in indices else get(i), for i in first..last+1, written with
-    set_range(first, values); flags cleared exactly for the elements of `indices`"""
+    """PmTree::remove_indices: with L the removal list (see removal_list): values[i - first] = default if i in L else get(i), for i in
+    L[0]..last(L)+1, written with set_range(L[0], values); flags cleared exactly for the elements of L"""
     eng = Engine(fb, inline=lambda i: False)
     paths = eng.run(it)
     arms = {}
     rng = None
+    L = None
     for p in paths:
         if p.kind != "backedge":
             continue
         pushes = [e for e in p.trace if e[0] == "push"]
-        con = [(a, v) for a, v in p.conds() if a[0] == "b" and a[1][0] == "call" and a[1][1].endswith("::contains") and a[1][2][0] == P(2)]
+        con = [(a, v) for a, v in p.conds() if a[0] == "b" and a[1][0] == "call" and a[1][1].endswith("::contains")]
         if pushes and con:
+            L = con[0][0][1][2][0]
             i = con[0][0][1][2][1]
             arms[con[0][1]] = (pushes[0][3], i)
             rng = range_var(i)
     if set(arms) != {True, False}:
         return False, "the span values are not chosen by `indices.contains(&i)` (arms found: %s)" % sorted(map(str, arms))
+    what = removal_list(fb, L)
+    if what is None:
+        return False, "the removal list is %s, specification the `indices` parameter (possibly restricted to positions below leaves_set())" % sh(L, 120)
     dv, i1 = arms[True]
     kv, i2 = arms[False]
     if not (dv[0] == "call" and dv[1].endswith("default_leaf")):
         return False, "a removed position receives %s, specification the default leaf" % sh(dv, 80)
     if not (kv[0] == "unwrap" and kv[1][0] == "call" and kv[1][1].endswith("MerkleTree::<D, H>::get") and kv[1][2] == (F(P(1), "tree"), i2)):
         return False, "a position that is not removed receives %s, specification its current leaf tree.get(i)" % sh(kv, 100)
-    first = ("idx", P(2), mk_const("usize", 0))
+    first = ("idx", L, mk_const("usize", 0))
+    lastL = ("unwrap", ("call", "core::slice::<impl [T]>::last", (L,)))
     lastp1 = rng is not None and isinstance(rng[1], tuple) and (
-        (rng[1][0] == "call" and rng[1][1].endswith("Add<usize>>::add") and len(rng[1][2]) == 2 and rng[1][2][0] == ("unwrap", ("call", "core::slice::<impl [T]>::last", (P(2),))) and cint(rng[1][2][1]) == 1)
-        or (rng[1][:2] == ("bin", "Add") and rng[1][2] == ("unwrap", ("call", "core::slice::<impl [T]>::last", (P(2),))) and cint(rng[1][3]) == 1))
+        (rng[1][0] == "call" and rng[1][1].endswith("Add<usize>>::add") and len(rng[1][2]) == 2 and rng[1][2][0] == lastL and cint(rng[1][2][1]) == 1)
+        or (rng[1][:2] == ("bin", "Add") and rng[1][2] == lastL and cint(rng[1][3]) == 1))
     if rng is None or rng[0] != first or not lastp1:
-        return False, ("the span is %s .. %s, specification exactly indices[0] .. last + 1 (a shorter span leaves removed positions in place and can hand the "
+        return False, ("the span is %s .. %s, specification exactly L[0] .. last(L) + 1 for the removal list L (a shorter span leaves removed positions in place and can hand the "
                        "storage tree an empty batch; a longer one rewrites positions outside the removal set)" % (sh(rng[0], 60) if rng else None, sh(rng[1], 120) if rng else None))
     wr = [c for p in paths for c in p.calls(r"MerkleTree::<D, H>::set_range$")]
     if not wr or any(c[2][1] != first or not (c[2][2][0] == "phi" and c[2][2][3] == "new_leaves") for c in wr):
-        return False, "the values are written with set_range(%s, %s), specification set_range(indices[0], values)" % (sh(wr[0][2][1], 40) if wr else None, sh(wr[0][2][2], 40) if wr else None)
+        return False, "the values are written with set_range(%s, %s), specification set_range(L[0], values)" % (sh(wr[0][2][1], 40) if wr else None, sh(wr[0][2][2], 40) if wr else None)
     s = treefx.summarize(fb, it)
-    if s["f1"] or [x[0] for x in s["f0"]] != ["elems"] or s["f0"][0][1] != P(2):
-        return False, "flags cleared for %s / set for %s, specification cleared exactly for the elements of `indices`" % ([treefx.show_pos(x) for x in s["f0"]], [treefx.show_pos(x) for x in s["f1"]])
+    if s["f1"] or [x[0] for x in s["f0"]] != ["elems"] or s["f0"][0][1] != L:
+        return False, "flags cleared for %s / set for %s, specification cleared exactly for the elements of the removal list" % ([treefx.show_pos(x) for x in s["f0"]], [treefx.show_pos(x) for x in s["f1"]])
     return True, ""
 
 
